@@ -6,8 +6,12 @@ ENGINE = "sortfields"
 RULE = ("entries whose field keys are drawn from {a, A, b, B, ab, Ab, c} in every collision pattern (all key lists up to "
         "4 fields quick / 6 thorough, longer ones up to 8 sampled) x {alphabetical, normalise, custom order}; custom orders = "
         "all sub-permutations of 4 names x case-sensitive or not x tuple or list (constructor errors included); two-step "
-        "compositions; libraries with other block classes around the entry (frame); in-place and copy mode. "
-        "distinct = distinct (key list, step list, context, mode); non-trivial = the entry has at least two fields")
+        "compositions; libraries with other block classes around the entry (frame); in-place and copy mode; "
+        "the same with the entry an instance of a user subclass of Entry (trivial subclass, and a subclass whose `fields` "
+        "getter hands out a copy of the held list: all key lists up to 3 fields quick / 4 thorough x the three middlewares, "
+        "longer ones, compositions, frames and all custom orders sampled; judged on the returned entry's `.fields`, encoded "
+        "for the model like a plain Entry of the same content). "
+        "distinct = distinct (key list, step list, context, mode, entry class); non-trivial = the entry has at least two fields")
 TRUSTED = ["oracle instance: str.lower restricted to ASCII (inputs with other cased letters are compared by the Python oracle only)",
            "CPython's sorted() is a stable sort (Base/StableSort.v proves the stable sorted permutation unique, so any such "
            "sort computes the model's insertion sort)"]
@@ -17,6 +21,9 @@ ASSUMPTIONS = ["sorted() meets the stable-sort contract; dict preserves insertio
 NAMES = ["a", "A", "b", "B", "ab", "Ab", "c"]
 ORDER_NAMES = ["a", "A", "B", "ab"]
 ORDER_NAMES_2 = ["A", "b", "Ab", "c"]
+# cls: 0 = plain Entry, 1 = userclasses.SubEntry (trivial subclass), 2 = userclasses.CopyFieldsEntry (getter returns a copy)
+CLS_NAMES = ["Entry", "SubEntry", "CopyFieldsEntry"]
+MW_NAMES = ["alphabetical", "custom", "normalise"]
 UNI_NAMES = ["é", "É", "ß", "ẞ", "İ", "i", "I", "Σ", "σ", "ς", "a", "A"]
 
 
@@ -43,8 +50,11 @@ def random_step(rng):
 def generate(rng, tier):
     cases = []
 
-    def add(stream, names, steps, ctx=0, inplace=True):
-        cases.append({"stream": stream, "input": {"names": names, "steps": steps, "ctx": ctx, "inplace": inplace}})
+    def add(stream, names, steps, ctx=0, inplace=True, cls=0):
+        inp = {"names": names, "steps": steps, "ctx": ctx, "inplace": inplace}
+        if cls:
+            inp["cls"] = cls
+        cases.append({"stream": stream, "input": inp})
 
     exh = 4 if tier == "quick" else 6
     for n in range(exh + 1):
@@ -88,6 +98,43 @@ def generate(rng, tier):
         r = rng.random()
         step = [0] if r < 0.3 else [2] if r < 0.6 else [1, rng.randint(0, 1), rng.randint(0, 1), rng.sample(UNI_NAMES, rng.randint(0, 4))]
         add("unicode", names, [step], 0, bool(rng.getrandbits(1)))
+    # ---- entries of user subclasses of Entry (cls 1, 2): every stream above once more for them
+    uexh = 3 if tier == "quick" else 4
+    for n in range(uexh + 1):
+        for names in itertools.product(NAMES, repeat=n):
+            names = list(names)
+            for cls in (1, 2):
+                modes = (True, False) if n <= 2 else (bool(rng.getrandbits(1)),)
+                for inplace in modes:
+                    add("userclass-exhaustive", names, [[0]], 0, inplace, cls)
+                    add("userclass-exhaustive", names, [[2]], 0, inplace, cls)
+                    add("userclass-exhaustive", names, [custom_step(rng, ORDER_NAMES if rng.random() < 0.5 else ORDER_NAMES_2)],
+                        0, inplace, cls)
+            if rng.random() < 0.2:
+                add("userclass-compose", names, [random_step(rng), random_step(rng)], rng.choice([0, 0, 1, 2]),
+                    bool(rng.getrandbits(1)), rng.choice([1, 2]))
+            if rng.random() < 0.1:
+                add("userclass-frame", names, [random_step(rng)], rng.choice([1, 2]), bool(rng.getrandbits(1)), rng.choice([1, 2]))
+    n_ulong = 300 if tier == "quick" else 6000
+    for _ in range(n_ulong):
+        names = [rng.choice(NAMES) for _ in range(rng.randint(uexh + 1, 8))]
+        add("userclass-long", names, [random_step(rng) for _ in range(rng.randint(1, 3))], rng.choice([0, 0, 0, 1, 2]),
+            bool(rng.getrandbits(1)), rng.choice([1, 2]))
+    n_ulists = 1 if tier == "quick" else 8
+    for names_set in (ORDER_NAMES, ORDER_NAMES_2):
+        for order in subperms(names_set):
+            for cs in (0, 1):
+                for cls in (1, 2):
+                    for _ in range(n_ulists):
+                        names = (list(rng.choice(fixed)) if rng.random() < 0.5
+                                 else [rng.choice(NAMES) for _ in range(rng.randint(2, 8))])
+                        add("userclass-orders", names, [[1, cs, rng.randint(0, 1), order]], 0, bool(rng.getrandbits(1)), cls)
+    n_uuni = 60 if tier == "quick" else 1200
+    for _ in range(n_uuni):
+        names = [rng.choice(UNI_NAMES) for _ in range(rng.randint(1, 6))]
+        r = rng.random()
+        step = [0] if r < 0.3 else [2] if r < 0.6 else [1, rng.randint(0, 1), rng.randint(0, 1), rng.sample(UNI_NAMES, rng.randint(0, 4))]
+        add("userclass-unicode", names, [step], 0, bool(rng.getrandbits(1)), rng.choice([1, 2]))
     return cases
 
 
@@ -113,6 +160,8 @@ def shrink(case):
         mk(ctx=0)
     if not inp["inplace"]:
         mk(inplace=True)
+    if inp.get("cls"):
+        mk(cls=0)
     return out
 
 
@@ -132,6 +181,17 @@ def build_blocks(inp):
     fields = [Field(n, field_value(i), i) for i, n in enumerate(inp["names"])]
     entry = Entry("article", "k1", fields, start_line=5, raw="@article{k1, ...}")
     ctx = inp["ctx"]
+    cls = inp.get("cls", 0)
+    if cls:
+        # the entry under test is an instance of a user subclass of Entry; with other entries around (ctx 1) the second
+        # top-level entry is of the OTHER user class, so that such a library holds plain, trivial-subclass and copy-getter entries
+        from props import userclasses
+        uc = userclasses.get()
+        conv = {1: uc.as_sub, 2: uc.as_copyfields}
+        as_cls, as_other = conv[cls], conv[3 - cls]
+        entry = as_cls(entry)
+    else:
+        as_other = lambda e: e  # noqa: E731
     if ctx == 0:
         return [entry]
     if ctx == 2:
@@ -140,7 +200,7 @@ def build_blocks(inp):
         entry.parser_metadata["sorted_fields_alphabetically"] = False
         entry.parser_metadata["tail"] = ["t"]
         return [ImplicitComment("head", 0, "head"), entry]
-    other = Entry("Book", "K1", [Field("B", "x", 1), Field("b", "y", 2), Field("A", 3, 3)], start_line=20, raw="@Book{K1}")
+    other = as_other(Entry("Book", "K1", [Field("B", "x", 1), Field("b", "y", 2), Field("A", 3, 3)], start_line=20, raw="@Book{K1}"))
     dup = Entry("misc", "k1", [Field("c", "1", 1), Field("C", "2", 2), Field("a", "3", 3)], start_line=30, raw="@misc{k1}")
     dupf = Entry("misc", "k9", [Field("b", "1", 1), Field("b", "2", 2), Field("a", "3", 3)], start_line=40, raw="@misc{k9}")
     mwe = Entry("misc", "k8", [Field("b", "1", 1), Field("a", "3", 3)], start_line=50, raw="@misc{k8}")
@@ -155,17 +215,41 @@ def fold(k, cs):
     return k if cs else k.lower()
 
 
-def snapshot(lib):
-    """Value snapshot of a library independent of later in-place changes."""
+def is_entry(b):
+    from bibtexparser.model import Entry
+    return isinstance(b, Entry)
+
+
+def enc_b(b):
+    """enc.enc_block, with an instance of a user subclass of Entry encoded exactly like a plain Entry of the same content
+    (read through its public attributes: entry_type, key, fields, start_line, raw, parser_metadata), also where it sits
+    inside an error block.  Blocks without such an entry go to enc.enc_block unchanged."""
     import enc
+    from bibtexparser.model import Entry
+    if isinstance(b, Entry):
+        if type(b) is Entry:
+            return enc.enc_block(b)
+        return [enc.B_ENTRY, enc.enc_hdr(b), enc.enc_str(b.entry_type), enc.enc_str(b.key), [enc.enc_field(f) for f in b.fields]]
+    cn = type(b).__name__
+    if cn == "MiddlewareErrorBlock":
+        return [enc.B_MWERR, enc.enc_hdr(b), enc.enc_err(b.error), enc_b(b.ignore_error_block)]
+    if cn == "DuplicateBlockKeyBlock":
+        return [enc.B_DUPKEY, enc.enc_hdr(b), enc.enc_str(b.key), enc_b(b.previous_block), enc_b(b.ignore_error_block)]
+    if cn == "DuplicateFieldKeyBlock":
+        return [enc.B_DUPFIELD, enc.enc_hdr(b), [enc.enc_str(k) for k in sorted(b.duplicate_keys)], enc_b(b.ignore_error_block)]
+    return enc.enc_block(b)
+
+
+def snapshot(lib):
+    """Value snapshot of a library independent of later in-place changes.  Every instance of Entry (plain or of a user
+    subclass) is an "Entry" here and is read through its `fields` attribute: the property speaks of the entry's fields."""
     snap = []
     for b in lib.blocks:
-        cn = type(b).__name__
-        if cn == "Entry":
-            snap.append((cn, b.entry_type, b.key, b.start_line, b.raw,
+        if is_entry(b):
+            snap.append(("Entry", b.entry_type, b.key, b.start_line, b.raw,
                          [(f.key, f.value, f.start_line, type(f.value).__name__, json.dumps(f.value)) for f in b.fields]))
         else:
-            snap.append((cn, json.dumps(enc.enc_block(b))))
+            snap.append((type(b).__name__, json.dumps(enc_b(b))))
     return snap
 
 
@@ -242,8 +326,14 @@ def impl(case):
     steps, inplace = inp["steps"], inp["inplace"]
     lib0 = Library([copy.deepcopy(b) for b in Library(build_blocks(inp)).blocks])
     sx_steps = [[s[0]] if s[0] != 1 else [1, s[1], s[2], [enc.enc_str(k) for k in s[3]]] for s in steps]
-    sx_in = [40, sx_steps, [enc.enc_block(b) for b in lib0.blocks]]
+    sx_in = [40, sx_steps, [enc_b(b) for b in lib0.blocks]]
     rec = {"sx_in": sx_in, "key": json.dumps(inp, sort_keys=True), "nontrivial": len(inp["names"]) >= 2, "tags": []}
+    cls = inp.get("cls", 0)
+    rec["tags"].append("entry-class=" + CLS_NAMES[cls])
+    if cls:
+        got = [type(b).__name__ for b in lib0.blocks if is_entry(b)]
+        if CLS_NAMES[cls] not in got:          # the generator's promise, not the library's: never silently test a plain entry
+            raise AssertionError("harness: entry under test is not a %s: %r" % (CLS_NAMES[cls], got))
     all_keys = list(inp["names"]) + [k for s in steps if s[0] == 1 for k in s[3]]
     if not all(enc.lower_is_ascii_only(k) for k in all_keys):
         rec["skip"] = True
@@ -289,14 +379,16 @@ def impl(case):
         again = implutil.guarded(lambda: mw.transform(Library([copy.deepcopy(b) for b in out.blocks])))
         if again[0] == "exc":
             complaints.append("step %r: second application raised %s" % (s, again[2]))
-        elif [enc.enc_block(b) for b in again[1].blocks] != [enc.enc_block(b) for b in out.blocks]:
+        elif [enc_b(b) for b in again[1].blocks] != [enc_b(b) for b in out.blocks]:
             complaints.append("step %r: not idempotent: %r then %r" % (
                 s, [[f[0] for f in b[5]] for b in after if b[0] == "Entry"],
-                [[f.key for f in b.fields] for b in again[1].blocks if type(b).__name__ == "Entry"]))
+                [[f.key for f in b.fields] for b in again[1].blocks if is_entry(b)]))
+        if cls:
+            rec["tags"].append("userclass/%s/%s/%s" % (CLS_NAMES[cls], MW_NAMES[s[0]], "inplace" if inplace else "copy"))
         lib = out
-    rec["sx_out"] = implutil.r_ok([enc.enc_block(b) for b in lib.blocks])
+    rec["sx_out"] = implutil.r_ok([enc_b(b) for b in lib.blocks])
     rec["oracle"] = {"ok": not complaints, "detail": "; ".join(complaints)[:600]}
-    ent = [b for b in lib.blocks if type(b).__name__ == "Entry"]
+    ent = [b for b in lib.blocks if is_entry(b)]
     rec["summary"] = repr([(f.key, f.value) for f in ent[0].fields])[:200] if ent else "no entry"
     rec["tags"].append("steps=%d" % len(steps))
     rec["tags"].append("fields=%d" % len(inp["names"]))
